@@ -639,25 +639,25 @@ ChildChanged(s, p, c, ci0, old) ==
             IN Up(s1, 1)
     [] OTHER -> s
 
-\* parent_iter_can_recompute_now: returns [s, now]
+\* parent_iter_can_recompute_now: returns [s, now].
+\* With "direct_guard" (the repaired design) the height test is followed by
+\* `recompute_heap.min_height() > limit`, which also raises the heap's lower bound.
 CanRecomputeNow(s, p, c) ==
   IF ~s.valid[p] THEN [s |-> s, now |-> FALSE] ELSE
-  LET k == Kind(s, p)
-      sminS == RchMinHeightState(s)
-      hmin == sminS.rchLower
-      guardOk(limit) == IF "direct_guard" \in Fix THEN RchMin(s) > limit ELSE TRUE
-      can == CASE k \in {"fold", "map2", "expert"} -> FALSE
-               [] k \in {"lhs", "mapref", "mwo", "map"} ->
-                    s.height[c] > ScopeHeight(s, p) /\ guardOk(ScopeHeight(s, p))
-               [] k = "main" -> s.height[c] > s.height[s.def[p].lc] /\ guardOk(s.height[s.def[p].lc])
-               [] OTHER -> FALSE
-  IN IF k \in {"const", "var"} THEN [s |-> Fail(s, "panic:not_a_parent"), now |-> FALSE] ELSE
-     IF k \in {"lhs", "mapref", "mwo", "map"} /\ ~ScopeAlive(s, p)
-     THEN [s |-> Fail(s, "panic:unwrap_scope"), now |-> FALSE] ELSE
-     IF can THEN [s |-> s, now |-> TRUE]
-     ELSE IF s.height[p] <= hmin THEN [s |-> sminS, now |-> TRUE]
-     ELSE LET s1 == DGuard(DGuard(sminS, NeedsCompute(sminS, p), "dassert:crn_needs"),
-                           ~InHeap(sminS, p), "dassert:crn_in_heap")
+  LET k == Kind(s, p) IN
+  IF k \in {"const", "var"} THEN [s |-> Fail(s, "panic:not_a_parent"), now |-> FALSE] ELSE
+  IF k \in {"lhs", "mapref", "mwo", "map"} /\ ~ScopeAlive(s, p)
+  THEN [s |-> Fail(s, "panic:unwrap_scope"), now |-> FALSE] ELSE
+  LET single == k \in {"lhs", "mapref", "mwo", "map", "main"}
+      limit == IF k = "main" THEN s.height[s.def[p].lc] ELSE ScopeHeight(s, p)
+      first == single /\ s.height[c] > limit
+      sA == IF first /\ "direct_guard" \in Fix THEN RchMinHeightState(s) ELSE s
+      can == first /\ ("direct_guard" \in Fix => sA.rchLower > limit)
+  IN IF can THEN [s |-> sA, now |-> TRUE] ELSE
+     LET sB == RchMinHeightState(sA) IN
+     IF sB.height[p] <= sB.rchLower THEN [s |-> sB, now |-> TRUE]
+     ELSE LET s1 == DGuard(DGuard(sB, NeedsCompute(sB, p), "dassert:crn_needs"),
+                           ~InHeap(sB, p), "dassert:crn_in_heap")
           IN [s |-> RchInsert(s1, p), now |-> FALSE]
 
 \* maybe_change_value_manual: sets s.chain to the parent to recompute directly (0 = none)
